@@ -29,3 +29,6 @@ claim("C09",
 claim("C17",
  "Proved: StreamDecoder keeps its buffer equal to the most recent bytes delivered by the Reader, in order, for every chunking (empty reads, short reads, data+error) through scan/realloc/refill/peek/More/readMore/Decode; errors are sticky; a successful Decode strictly advances InputOffset; the decoded text never aliases the read buffer; positions and slices stay in range. StreamEncoder.Encode delivers exactly the encoder's bytes plus the optional newline under short writes and returns the first Writer error including the newline's.",
  "Reader/Writer are nondeterministic assumed contracts (io.Reader/io.Writer, total stream < 2^62 bytes); native skip_one_fast and the decoder core are assumed contracts; value framing against the whole remaining input (a number cut at the end of the buffered prefix) and the EOF/ErrUnexpectedEOF classification are NOT decided (see DESIGN section 8).")
+claim("C06",
+ "Partial. Proved with an ownership ghost ($pooled = byte arrays owned by a sync.Pool): the slice returned by encoder.Encode and by ast.Node.MarshalJSON (non-raw nodes) is never owned by a pool afterwards and is new or handed-over memory, on both sides of the pool size limit; encodeFinishWithPool pools only the replaced buffer; NewBytes/FreeBytes/newBuffer/freeBuffer/api.freeBytes keep the pool well-formed; the text decoded by StreamDecoder.Decode never aliases the read buffer. Since later calls obtain memory only from a pool or fresh allocation, bytes not owned by a pool cannot be changed by later calls.",
+ "sync.Pool semantics (Get returns exclusively owned objects; pool discipline len==0 as rely/guarantee) are assumed; writes of generated encoder code (check_size/more_space), EncodeInto's spare-capacity frame, CopyString/Unmarshal copies are not reached; alg.HtmlEscape and utf8.CorrectWith are assumed w.r.t. ownership.")
